@@ -18,7 +18,7 @@ Inductive op :=
 | OpUnlearn (k t : list N).
 
 Section Run.
-Context {D SY : Type} (dops : dict_ops D) (sops : syl_ops SY) (conv : conv_fn).
+Context {D SY : Type} (dops : dict_ops D) (sops : syl_ops SY) (conv : conv_fn D).
 
 Definition fst_ok {A B} (r : outcome (A * B)) : outcome A :=
   match r with Ok (a, _) => Ok a | Err x => Err x | Panic s => Panic s | OutOfFuel => OutOfFuel end.
